@@ -91,7 +91,9 @@ def run_configs(mod, pid, tier, res):
     for conf in ("plain", "unittests"):
         res2 = report.Result(pid)
         try:
-            mod.run(Context(tier, default_config=conf), res2)
+            # the extra configurations get the quick rule set (the long
+            # simulations of the thorough tier do not depend on these flags)
+            mod.run(Context("quick", default_config=conf), res2)
         except build.AnalysisBroken as e:
             confs[conf] = {"analysis_broken": str(e)}
             res.controls.append({"name": "configuration:" + conf, "ok": False, "detail": str(e)})
